@@ -233,8 +233,8 @@ def build_pair(desc, rng, tgen, dt):
 
 
 def build_herm_operator(kind, mat, rng, tgen, counter):
-    import xitorch
     """operator whose dense value is `mat`, and the norm scale of the pieces it is assembled from (round-off scale)"""
+    import xitorch
     scale = float(torch.linalg.matrix_norm(mat, ord=2).max())
     if kind == "dense_herm":
         return xitorch.LinearOperator.m(mat, is_hermitian=True), scale
@@ -314,7 +314,7 @@ def _scaled_gram_min_eig(V, MV):
         return 0.0
 
 
-ILLCOND_THRESHOLD = 1e-4
+ILLCOND_THRESHOLD = 1e-6
 
 
 def illcond_tag(log):
@@ -466,8 +466,17 @@ def run_symeig(desc, obs):
         dense_tol = 2000 * EPS * n * scale * kM + 1e-300
         dav_tol = 10 * math.sqrt(n) * min_eps if method == "davidson" else 0.0
         tol_val = dense_tol + dav_tol
+        if method == "davidson":
+            # a Ritz pair that meets the residual test is within the residual of SOME eigenvalue; inside a cluster whose
+            # members are closer than the stopping tolerance can resolve, that may be a neighbour of the i-th one
+            wd = w[1:] - w[:-1]
+            width, cw = 0.0, 0.0
+            for gdiff in wd.tolist():
+                cw = cw + gdiff if gdiff <= 1e-4 else 0.0
+                width = max(width, cw)
+            tol_val += width
         tol_res = dense_tol + dav_tol
-        tol_orth = 1e-9 if method == "davidson" else 2000 * EPS * n * kM
+        tol_orth = 1e-8 if method == "davidson" else 2000 * EPS * n * kM
         sel = slice(0, neig) if low else slice(n - neig, n)
         wsel = w[sel]
         Eb, Xb = Ef[b], Xf[b]
@@ -541,7 +550,7 @@ def run_symeig(desc, obs):
               "M-orthogonal projector onto a complete eigenvalue group differs from the reference: %.3e, error/tolerance %.3e" % (
                   raw["sub"], worst["sub"]), spec=desc["spec"], n=n, neig=neig, opA=desc["opA"], kM=kM)
     obs.note(ratios={k: float("%.3g" % v) for k, v in worst.items()}, raw={k: float("%.3g" % v) for k, v in raw.items()},
-             iters=iters, path=log["path"], full_batch=list(full), normA=normA, kM=kM)
+             iters=iters, illcond_qr=bool(illcond_tag(log)), path=log["path"], full_batch=list(full), normA=normA, kM=kM)
     obs.nontrivial = n >= 2 and (method != "davidson" or iters >= 2)
 
 
@@ -617,7 +626,7 @@ def run_svd(desc, obs):
     r_eig = 10 * math.sqrt(p) * 1e-6 if dav else 0.0     # residual bound of the eigenproblem on A^H A (davidson's stopping test)
     base = 2000 * EPS * max(m, n)
     tol_s = base * smax * kap + r_eig / smin
-    tol_orth_eig = 1e-9 if dav else base
+    tol_orth_eig = 1e-8 if dav else base
     tol_orth_der = base * kap ** 2 + 4 * r_eig / smin ** 2 + tol_orth_eig * kap ** 2
     tol_av = base * smax * kap + 2 * r_eig / smin
     tol_rec = base * smax * kap ** 2 + 4 * r_eig * smax / smin ** 2 + tol_orth_eig * smax * kap
@@ -653,7 +662,7 @@ def run_svd(desc, obs):
         obs.check(ratios["recon"] <= 1, "svd_recon:%s" % key, "|U diag(S) V^H - A| = %.3e (error/tolerance %.3e)" % (er, ratios["recon"]),
                   opA=desc["opA"], m=m, n=n, kappa=kap)
     obs.note(ratios={a: float("%.3g" % b) for a, b in ratios.items()}, raw={a: float("%.3g" % b) for a, b in raw.items()},
-             iters=iters, path=log["path"], kappa=kap, smin=smin)
+             iters=iters, illcond_qr=bool(illcond_tag(log)), path=log["path"], kappa=kap, smin=smin)
     obs.nontrivial = p >= 2 and (not dav or iters >= 2)
 
 
